@@ -206,7 +206,7 @@ def replay(prog, order, timeout=30.0):
     return {"hang": False, "diverged": rec.baton.diverged, "outcome": w.outcome(res.get(1), res.get(2)), "res": res}
 
 
-def decide_pair(prog, max_replays=10, variants=False, check_deadlock=True):
+def decide_pair(prog, max_replays=10, variants=False, check_deadlock=True, cycles=True):
     """Full decision for one two-operation program.  Returns a dict with verdict
     ('unsat' = no conflict-cyclic ordering of the recorded events, 'violated',
     'candidates-serial' = every witness replayed to a serial outcome) and statistics."""
@@ -237,6 +237,8 @@ def decide_pair(prog, max_replays=10, variants=False, check_deadlock=True):
                     out["violation"] = {"kind": "deadlock", "locks": wit[2:], "order_prefix": (i, j)}
                     out["wall_s"] = round(time.time() - t_start, 2)
                     return out
+        if not cycles:
+            continue
         pb = order_smt.OrderProblem(t1, t2)
         n_rep = 0
         for (ka, kb), r, order in pb.cycles():
